@@ -158,6 +158,18 @@ def run_layout(slots, tier, acc):
                 shown = name.replace(root, '<root>')
                 case = dict(slots=list(slots), base=['in', 'in/', 'inlink', 'out/../in'][bi], name=shown)
                 check_name(l2t, base, name, owners, acc, case, via_l2t=(bi == 0))
+        # one converter object re-configured from directory to directory (after at least one read under the
+        # previous directory): the containment check must follow the *current* directory
+        shared = LatexNodes2Text()
+        seq = [os.path.join(root, 'out'), os.path.join(root, 'in'), os.path.join(root, 'in2'), os.path.join(root, 'in')]
+        for si, base in enumerate(seq):
+            shared.set_tex_input_directory(base)
+            owners_rel = owners
+            for name in ['x', 'x.tex', 'secret', 's', 'sub/g', '../out/secret', '../out/x', '../in/x', '../in2/s', '../in/sub/g',
+                         os.path.join(root, 'out', 'secret.tex'), os.path.join(root, 'in', 'sub', 'g.tex')]:
+                case = dict(slots=list(slots), base='reconfigured:' + '>'.join(os.path.basename(b) for b in seq[:si + 1]),
+                            name=name.replace(root, '<root>'))
+                check_name(shared, base, name, owners, acc, case, via_l2t=False)
         # no directory configured: no file access at all
         l2t0 = LatexNodes2Text()
         for name in [os.path.join(root, 'in', 'sub', 'g.tex'), os.path.join(root, 'out', 'secret.tex')]:
